@@ -499,7 +499,7 @@ func bfs(r *core.Run, label string, al alpha, depth int) bfsStats {
 				if len(base.worlds) == 0 {
 					return // cannot happen: states with a hard mismatch are never enqueued
 				}
-				alphas[i] = enumerate(base.worlds[0], al)
+				alphas[i] = enumerate(base.worlds[0], al, part[i])
 				descs[i] = make([]string, len(alphas[i]))
 				for j, op := range alphas[i] {
 					descs[i][j] = describeOperand(base.worlds[0], op)
@@ -594,7 +594,7 @@ func bfs(r *core.Run, label string, al alpha, depth int) bfsStats {
 }
 
 // enumerate dispatches on the alphabet level (3 = the no-op family).
-func enumerate(w *world, al alpha) []Op {
+func enumerate(w *world, al alpha, hist []Op) []Op {
 	if al.level == 3 {
 		if len(w.vars) >= al.maxVars {
 			return nil
@@ -606,6 +606,12 @@ func enumerate(w *world, al alpha) []Op {
 			return nil
 		}
 		return alphabetSiblings(w)
+	}
+	if al.level == 5 || al.level == 6 {
+		if len(w.vars) >= al.maxVars {
+			return nil
+		}
+		return alphabetStored(w, hist, al.level == 5)
 	}
 	return alphabet(w, al)
 }
@@ -632,6 +638,7 @@ func run(r *core.Run) {
 			{"core-alphabet", alpha{level: 0, maxVars: 6}, 5},
 			{"noop-family", alpha{level: 3, maxVars: 6}, 4},
 			{"siblings-family", alpha{level: 4, maxVars: 6}, 4},
+			{"stored-identity-family", alpha{level: 6, maxVars: 6}, 5},
 		}
 	} else {
 		passes = []pass{
@@ -639,6 +646,7 @@ func run(r *core.Run) {
 			{"core-alphabet", alpha{level: 0, maxVars: 6}, 4},
 			{"noop-family", alpha{level: 3, maxVars: 6}, 3},
 			{"siblings-family", alpha{level: 4, maxVars: 6}, 3},
+			{"stored-identity-family", alpha{level: 5, maxVars: 6}, 4},
 		}
 	}
 	r.Rule("a state is non-trivial when its heap contains sharing: two distinct live sequence values whose windows onto one backing " +
@@ -660,6 +668,10 @@ func run(r *core.Run) {
 	r.Assume("containers produced by ONE call (zip tuples, containers built in a map callback, constructors of constructors, concat/append/reverse/slice/assoc " +
 		"results over containers, decoded JSON arrays and objects, select/reject results) are independent objects: the siblings-family pass takes each inner " +
 		"container out by nth/aref/first/second/get, applies every in-place operation to it and to the outer container, and re-inspects the outer container and all siblings")
+	r.Assume("a container stored INTO another by any operation (cons, list, vector, append, append!, concat, insert-index, insert-sorted with predicate and with key " +
+		"function, assoc/assoc! as value, sorted-map, zip inputs, map identity, select, reject, reverse, slice/cdr/rest views, stable-sort with predicate and key) is the very same " +
+		"object afterwards: the stored-identity-family pass stores a sorted-map, a list, a vector and a byte string, mutates it in place through the original reference and " +
+		"re-reads it through the container, and takes it out of the container (nth/aref/first/second/get), mutates it and re-reads the original; quick ends a history after its first in-place operation")
 	r.Assume("strings are outside the alphabet (to-string/format-string of a string): elps strings are immutable, no in-place operation exists, so sharing is unobservable")
 	r.Assume("the canonical state also carries the IDENTITY of the real mutable object behind every container (cell holder, byte box, Go map), so a history whose " +
 		"'fresh' result is really its argument is never merged with an honest history that reaches the same model heap")
